@@ -104,6 +104,7 @@ func (b *verifBackoff) NextBackOff() time.Duration {
 }
 
 func verifDownload(allowDrop, symbolicBackoff bool) {
+	verif.Option("panic_is_violation", 1) // a panic must never end a path silently
 	w := &verifDownloadWorld{
 		blob:        verif.Bytes("blob", verif.Bound("blob_len", 2, 3)),
 		allowDrop:   allowDrop,
